@@ -79,7 +79,7 @@ def run(ck, prog):
               expected="FCR == Fplus + Fminus", found=repr(fcr[0][1]), slot="FCR=f+ + f-")
         ck.ob("ALG-identity", SEQ_PATH + ":Sequence.NCPR", ncpr[0][1].equals(fp[0][1] - fm[0][1]),
               expected="NCPR == Fplus - Fminus", found=repr(ncpr[0][1]), slot="NCPR=f+ - f-")
-    check_api(ck, prog, API, allow_pre=("__verify_pH",))
+    ck.attempt(check_api, ck, prog, API, allow_pre=("__verify_pH",))
     ck.floor("composition parameters", ck.analysed.get("parameters compared", 0), 17)
     ck.floor("api wrappers", ck.analysed.get("api wrappers checked", 0), 16)
 
